@@ -76,6 +76,10 @@ Inductive rpc :=
 
 Inductive spawner := SpW (t : tid) | SpShutdown.
 
+(* context.Cause(rctx): the cause of the FIRST cancellation - the parent's own cause when the
+   parent context ended first, the configured [cancelErr] when [cancel(o.cancelErr)] came first *)
+Inductive cause := CConfigured | CParent.
+
 Record rrec := mkr {
   r_tid : tid;
   r_ctx : Z;                  (* parent context *)
@@ -83,7 +87,8 @@ Record rrec := mkr {
   r_done : bool;              (* the closure's [done] flag *)
   r_at : option Z;            (* rcancelGrace spawned at this time and not yet run *)
   r_by : option spawner;      (* ghost *)
-  r_why : option why          (* ghost: what ended rctx first *)
+  r_why : option why;         (* ghost: what ended rctx first *)
+  r_cause : option cause      (* context.Cause(rctx); None while rctx is live *)
 }.
 
 Inductive slot_owner := NoOwner | OwnRun | OwnW (t : tid).
@@ -167,7 +172,7 @@ Definition spawn_all (m : list (Z * nat)) (t0 : Z) (by_ : spawner) (l : list rre
                | Some r => match r_at r with
                            | Some _ => l
                            | None => set_nth (snd p) (mkr (r_tid r) (r_ctx r) (r_idx r) (r_done r)
-                                                          (Some t0) (Some by_) (r_why r)) l
+                                                          (Some t0) (Some by_) (r_why r) (r_cause r)) l
                            end
                | None => l
                end) m l.
@@ -179,14 +184,16 @@ Definition rcancel (s : ostate) (n : nat) (y : why) : ostate :=
       if r_done r then s
       else set_recs s (wg s - 1) (rcx s) (del_idx (r_idx r) (rcs s))
              (set_nth n (mkr (r_tid r) (r_ctx r) (r_idx r) true (r_at r) (r_by r)
-                             (match r_why r with Some y0 => Some y0 | None => Some y end)) (recs s))
+                             (match r_why r with Some y0 => Some y0 | None => Some y end)
+                             (match r_cause r with Some c0 => Some c0 | None => Some CConfigured end))
+                      (recs s))
   | None => s
   end.
 
 Definition clear_at (s : ostate) (n : nat) : ostate :=
   match nth_error (recs s) n with
   | Some r => set_recs s (wg s) (rcx s) (rcs s)
-                (set_nth n (mkr (r_tid r) (r_ctx r) (r_idx r) (r_done r) None (r_by r) (r_why r)) (recs s))
+                (set_nth n (mkr (r_tid r) (r_ctx r) (r_idx r) (r_done r) None (r_by r) (r_why r) (r_cause r)) (recs s))
   | None => s
   end.
 
@@ -195,6 +202,7 @@ Definition mark_parent (c : Z) (l : list rrec) : list rrec :=
   map (fun r => if Z.eqb (r_ctx r) c
                 then mkr (r_tid r) (r_ctx r) (r_idx r) (r_done r) (r_at r) (r_by r)
                          (match r_why r with Some y => Some y | None => Some ByParent end)
+                         (match r_cause r with Some c0 => Some c0 | None => Some CParent end)
                 else r) l.
 
 (* shutdownLock.Lock() by t *)
@@ -302,7 +310,8 @@ Definition ostep (s : ostate) (e : oev) : option ostate :=
       match runpc s with
       | RunReg (HR t c) =>
           let n := length (recs s) in
-          let r := mkr t c (rcx s) false None None (if cdn s c then Some ByParent else None) in
+          let r := mkr t c (rcx s) false None None (if cdn s c then Some ByParent else None)
+                       (if cdn s c then Some CParent else None) in
           let s1 := set_recs s (wg s + 1) (rcx s + 1)
                              ((rcx s, n) :: del_idx (rcx s) (rcs s)) (recs s ++ [r]) in
           Some (set_run (set_slot (set_resp s1 t (Some (PGrant n))) false NoOwner) RunIdle)
